@@ -21,7 +21,11 @@ CONFIG = {
               "sample_node returns exactly `amount` samples, each (up to literal order) a member of filter (okA A) (enum i); "
               "C07_valid - WF, in_range A, root not a true node (implied by n > 0; necessary: C07_true_root_refuted, the circuit [TrueN] over 0 features returns Some [] for amount 3), "
               "MCA > 0, choices_ok => Some L, length L = amount, every element in ModelsA (complete, feature order, model, contains A); "
-              "C07_unsat - None iff MCA = 0 or a literal with |l| > n; both under the explicit hypothesis exec_ok (preprocess + execute_query return MCA and leave countsA in the temps of non-true nodes; proved with C02, not here); "
+              "C07_unsat - None iff MCA = 0 or a literal with |l| > n; both under the explicit hypothesis exec_ok (preprocess + execute_query return MCA and leave countsA in the temps of non-true nodes), "
+              "which is now DISCHARGED: C07_exec_ok_holds (every WFQ circuit = check_wf, in-range A, Clean scratch, 0 < MCA; Proofs/ExecTemps.v), and the FINAL forms C07_valid_final (WFQ, 0 < n, in_range, Clean, "
+              "0 < MCA, choices_ok => Some L of `amount` members of ModelsA) and C07_unsat_final (WFQ, Clean, non-zero literals: None iff MCA = 0 or a literal out of range) carry no execute_query hypothesis; "
+              "C07_keeps_clean (the call re-establishes Clean). Found while discharging: exec_ok as stated (temps also when MCA = 0) is FALSE when the unsatisfiable-core shortcut answers 0 without recomputing "
+              "(C07_exec_ok_unsat_refuted; harmless, the temps are not read then), and a literal 0 is accepted by preprocess and ignored by the count (C07_zero_literal_refuted: [0] yields Some although no model contains 0), hence the side condition; "
               "C07_function_of_choices / C07_scratch_independent - samples and ok flag do not depend on incoming temps/pds (equal marks/md, e.g. Clean); "
               "C07_uniform_ideal_single (+ _node, C07_ideal_streams_run) - for amount = 1 with ideal primitives (Or: unit split e_k with probability temp_k/temp_node, shuffles of <= 1 element) "
               "the law of the sorted sample lists every element of ModelsA exactly once with probability 1/MCA (mass of every other configuration 0), under or_no_true (no Or node has a true child), "
